@@ -11,15 +11,20 @@ r = subprocess.run(["git", "-C", "/repo", "apply", patch], capture_output=True, 
 if r.returncode != 0:
     print("patch does not apply:", r.stderr[:500]); sys.exit(2)
 res = {}
+import shutil, tempfile
+bak = tempfile.mkdtemp(prefix="evid-bak-")
+shutil.copytree("/verif/evidence", bak + "/evidence")
 try:
     for p in props:
         t0 = time.time()
         o = subprocess.run(["./check", p], cwd="/verif", capture_output=True, text=True)
-        lines = [l for l in o.stdout.splitlines() if l.startswith(("VIOLATION", "OBLIGATION", "UNDECIDED", "OK", "KNOWN", "  witness"))]
+        lines = [l for l in o.stdout.splitlines() if l.startswith(("VIOLATION", "OBLIGATION", "UNDECIDED", "OK", "  witness", "WITNESS", "BOUNDED"))]
         res[p] = o.returncode
         print("== %s exit=%d (%.0fs)" % (p, o.returncode, time.time() - t0))
-        for l in lines[:6]:
+        for l in lines[:8]:
             print("   " + l[:400])
 finally:
     subprocess.run(["git", "-C", "/repo", "checkout", "--", "."])
+    # evidence written while a seeded change was applied must not survive (it would describe another tree)
+    shutil.rmtree("/verif/evidence"); shutil.copytree(bak + "/evidence", "/verif/evidence"); shutil.rmtree(bak)
 print("SUMMARY", seed, json.dumps(res))
